@@ -18,10 +18,20 @@ func TestProbe(t *testing.T) {
 	env := kernel.NewEnv(kernel.NewGenTape(1, "probe", 0), "quick")
 	w := NewWorld(env)
 	defer w.Close()
-	s := w.NewSession()
+	s1, s2 := w.NewSession(), w.NewSession()
 	for _, q := range strings.Split(src, ";;") {
 		q = strings.TrimSpace(q)
 		if q == "" {
+			continue
+		}
+		s := s1
+		if strings.HasPrefix(q, "@2 ") { // run on the second session
+			s, q = s2, strings.TrimPrefix(q, "@2 ")
+		}
+		if strings.HasPrefix(q, "!fault ") { // !fault k: arm the k-th edit call of the next statement
+			var k int
+			fmt.Sscanf(q, "!fault %d", &k)
+			w.Arm(k, "")
 			continue
 		}
 		r := s.Exec(q)
